@@ -25,6 +25,28 @@ def sh(cmd, cwd=None, env=None, timeout=3600):
     return r.returncode, (r.stdout + r.stderr)
 
 
+def run_demo(demo, cwd, env, limit=600):
+    """run a demo in its own session with its output in a file (a demo that
+    leaves worker processes behind would otherwise keep a pipe open and
+    block us), then kill whatever is left of its process group"""
+    import signal, tempfile
+    with tempfile.TemporaryFile() as out:
+        p = subprocess.Popen(["/venv/bin/python", demo], cwd=cwd, env=env,
+                             stdout=out, stderr=subprocess.STDOUT,
+                             start_new_session=True)
+        try:
+            rc = p.wait(timeout=limit)
+        except subprocess.TimeoutExpired:
+            rc = 124
+        try:
+            os.killpg(p.pid, signal.SIGKILL)
+        except (ProcessLookupError, PermissionError):
+            pass
+        p.wait()
+        out.seek(0)
+        return rc, out.read().decode("utf-8", "replace")
+
+
 def run_checks(name, repo):
     results = {}
     man = json.load(open(os.path.join(VERIF, "MANIFEST.json")))
@@ -62,15 +84,13 @@ def main():
         env = dict(os.environ, PYTHONPATH=wt)
         demo = os.path.abspath(os.path.join(src, "demo.py"))
         patch = os.path.abspath(os.path.join(src, "patch.diff"))
-        rc0, o0 = sh("timeout 600 /venv/bin/python %s" % demo, cwd=wt,
-                     env=env)
+        rc0, o0 = run_demo(demo, wt, env)
         meta["demo_clean_exit"] = rc0
         rca, oa = sh("git -C %s apply %s" % (wt, patch))
         meta["patch_applies"] = rca == 0
         if rca:
             meta["apply_error"] = oa[-400:]
-        rc1, o1 = sh("timeout 600 /venv/bin/python %s" % demo, cwd=wt,
-                     env=env)
+        rc1, o1 = run_demo(demo, wt, env)
         meta["demo_patched_exit"] = rc1
         meta["demo_patched_tail"] = o1[-500:]
         if not notests:
